@@ -10,7 +10,7 @@ Definition get_items_to_delete (now : Z) (items : list item) (bytes_limit : opti
   bind (match bytes_limit with
   | Some bytes_limit => (let to_delete_size := (size - bytes_limit) in
   Ok to_delete_size)
-  | None => (let to_delete_size := (- (1)) in
+  | None => (let to_delete_size := (0) in
   Ok to_delete_size)
   end) (fun to_delete_size =>
   bind (match items_limit with
@@ -35,7 +35,7 @@ Definition get_items_to_delete (now : Z) (items : list item) (bytes_limit : opti
     match l__ with
     | [] => Ok (items_to_delete, size_so_far, items_so_far)
     | item :: rest__ =>
-      if ((size_so_far >? to_delete_size) && ((items_so_far >=? to_delete_items) && (match deadline with None => true | Some deadline => (deadline <? iatime item) end))) then Ok (items_to_delete, size_so_far, items_so_far) else
+      if ((size_so_far >=? to_delete_size) && ((items_so_far >=? to_delete_items) && (match deadline with None => true | Some deadline => (deadline <? iatime item) end))) then Ok (items_to_delete, size_so_far, items_so_far) else
       let items_to_delete := items_to_delete ++ [item] in
       let size_so_far := (size_so_far + isize item) in
       let items_so_far := (items_so_far + (1)) in
